@@ -223,6 +223,15 @@ Deliver(st, a) ==
                      payload |-> a.payload], TRUE, st, "fresh")
 
 -----------------------------------------------------------------------------
+(* contracts/example: send(caller, destination_chain, destination_address, message, gas_token):
+   pays gas from the caller and announces the call in its own name *)
+ExampleSend(st, a) ==
+    LET fails == (IF a.caller \notin a.auth THEN {"named_auth"} ELSE {})
+                 \cup (IF a.gas <= 0 THEN {"gas_positive"} ELSE {})
+                 \cup (IF a.gas > 0 /\ st.gas[a.caller] < a.gas THEN {"gas_balance"} ELSE {})
+    IN Guarded(st, fails, Acc(PayGas(st, a.caller, a.gas), "unit",
+                              <<[k |-> "gas_paid", spender |-> a.caller, amt |-> a.gas], [k |-> "app_called", app |-> "ex"]>>))
+
 (* actions of other parties on the tokens (instances use them to build histories) *)
 MinterMint(st, a) ==       \* token.mint_from(minter, to, amount) by a designated minter of a native token
     LET fails == (IF a.minter \notin a.auth THEN {"named_auth"} ELSE {})
@@ -244,6 +253,7 @@ Apply(st, a) ==
       [] a.name = "Execute"                      -> Execute(st, a)
       [] a.name = "Deliver"                      -> Deliver(st, a)
       [] a.name = "MinterMint"                   -> MinterMint(st, a)
+      [] a.name = "ExampleSend"                  -> ExampleSend(st, a)
       [] a.name = "SetFakeMeta"                  -> SetFakeMeta(st, a)
 
 -----------------------------------------------------------------------------
